@@ -21,7 +21,7 @@ from . import packages as pk
 
 PID = 'C15'
 RULE = ('cases = (stored unit of the flux column, stored unit of the error column (same or another supported unit), requested unit, third unit, SED with 1..5 apertures, distance, wavelength grid in '
-        'either order, read order); every case is non-trivial (every value is converted); distinct = distinct '
+        'either order, read order, 1-2 further SED files with equal-looking grids read afterwards in the same process); every case is non-trivial (every value is converted); distinct = distinct '
         'canonical hash of the generated inputs; the directed block enumerates all 25 unit pairs and the refusals')
 KEYS = ['mJy', 'Jy', 'cgs', 'lum', 'SI']
 FAMILY = {'mJy': 'fnu', 'Jy': 'fnu', 'cgs': 'flux', 'SI': 'flux', 'lum': 'lum'}
@@ -31,7 +31,7 @@ BAD = ['K', 'm', 'Hz', 'g']
 LEGACY = {'mJy': 'MJY', 'cgs': 'ergs/cm^2/s'}      # legacy spellings in sed/helpers.py UNIT_MAPPING
 REQUIRED_BRANCHES = (['%s->%s' % (a, b) for a in ('fnu', 'flux', 'lum') for b in ('fnu', 'flux', 'lum')] +
                      ['refused', 'order_nu', 'order_wav', 'apertures_1', 'apertures_5', 'wav_increasing',
-                      'wav_decreasing', 'dtype_f4', 'dtype_f8', 'f4_large_luminosity', 'nu_unit_Hz', 'nu_unit_kHz', 'nu_unit_GHz',
+                      'wav_decreasing', 'sequential_read', 'sequential_same_ends_other_interior', 'dtype_f4', 'dtype_f8', 'f4_large_luminosity', 'nu_unit_Hz', 'nu_unit_kHz', 'nu_unit_GHz',
                       'nu_unit_THz', 'wav_unit_micron', 'wav_unit_other', 'legacy_units', 'legacy_MJY', 'legacy_ergs', 'err_unit_same', 'err_unit_same_family', 'err_unit_cross_family'] + ['pair_%s_%s' % (a, b) for a in KEYS for b in KEYS])
 ASSUMPTIONS = ['IEEE rounding is not modelled: values compared within 1e-9 relative',
                'frequencies and distance non-zero, finite positive fluxes',
@@ -43,7 +43,7 @@ ASSUMPTIONS = ['IEEE rounding is not modelled: values compared within 1e-9 relat
                'the public API: the SED.flux / SED.error setters validate the physical type, so such a file cannot be '
                'written with SED.write; only the target-side refusal is exercised (C15_refuse covers both in the model)']
 EXHAUSTIVE = {'quick': True, 'thorough': True}   # all 5 x 5 unit pairs are enumerated in both tiers
-N = {'quick': 330, 'thorough': 24000}
+N = {'quick': 340, 'thorough': 24000}
 DIST_UNITS = ['kpc', 'pc', 'cm', 'lyr']
 
 
@@ -61,7 +61,7 @@ WAV_UNITS = ['micron', 'nm', 'AA', 'cm', 'mm', 'm']
 
 
 def gen_case(rng, stored=None, requested=None, nap=None, order=None, wdir=None, stored_err=None, legacy=None,
-             dtype=None, big_lum=None, nu_unit=None, wav_unit=None):
+             dtype=None, big_lum=None, nu_unit=None, wav_unit=None, n_extra=None):
     free_request = requested is None
     stored = stored or rng.choice(KEYS)
     # the error column carries its own unit in the file; SED validates / writes / reads the two separately
@@ -105,7 +105,36 @@ def gen_case(rng, stored=None, requested=None, nap=None, order=None, wdir=None, 
     aps = sorted({float('%.3g' % nice(rng, 10., 1e5, 3)) for _ in range(nap)})
     while len(aps) < nap:
         aps.append(aps[-1] * 2)
-    return dict(stored=stored, stored_err=stored_err, requested=requested, third=third, wav=wav, distance=dist, distance_unit=dunit,
+    # further SED files read one after the other in the same process: same length, end points and units as the
+    # first grid but other interior points (and sometimes another length), requested across the F_nu boundary
+    extras = []
+    for k in range(rng.choice([1, 2]) if n_extra is None else n_extra):
+        w2 = list(wav)
+        if len(wav) >= 3 and (k == 0 or rng.random() < 0.7):
+            lo_w, hi_w = min(wav), max(wav)
+            inner = set()
+            tries = 0
+            while len(inner) < len(wav) - 2 and tries < 200:
+                tries += 1
+                x = nice(rng, lo_w, hi_w, 4)
+                if lo_w < x < hi_w and x not in wav:
+                    inner.add(x)
+            if len(inner) == len(wav) - 2:
+                w2 = [lo_w] + sorted(inner) + [hi_w]
+                if wav[0] > wav[-1]:
+                    w2 = w2[::-1]
+        else:
+            w2 = sorted({nice(rng, 0.05, 3000., 4) for _ in range(rng.choice([2, 4, 7]))})
+        f2 = [[float('%.4g' % (level * rng.uniform(0.1, 10.))) for _ in w2] for _ in range(nap)]
+        if stored_err == stored:
+            e2 = [[float('%.3g' % (f * rng.uniform(0.01, 0.5))) for f in row] for row in f2]
+        else:
+            e2 = [[float('%.3g' % (err[0][0] * rng.uniform(0.1, 10.))) for _ in w2] for _ in range(nap)]
+        cross = [key for key in KEYS if (FAMILY[key] == 'fnu') != (FAMILY[stored] == 'fnu')]
+        if dtype == 'f4':
+            cross = [key for key in cross if key != 'lum'] or cross
+        extras.append(dict(wav=w2, flux=f2, err=e2, requested=rng.choice(cross)))
+    return dict(stored=stored, stored_err=stored_err, requested=requested, third=third, wav=wav, extras=extras, distance=dist, distance_unit=dunit,
                 apertures=aps if nap > 1 else None, flux=flux, err=err,
                 order=order or rng.choice(['nu', 'wav']),
                 legacy=bool(rng.random() < 0.25 if legacy is None else legacy),
@@ -157,6 +186,11 @@ def gen_cases(seed, tier):
             yield gen_case(rng, stored=a, stored_err=a, requested=b, nu_unit=nuu, wav_unit=WAV_UNITS[(i + k) % 6],
                            legacy=bool(i % 2))
             i += 1
+    # sequential reads of files with equal-looking grids (same length / end points / units), cross-family requests
+    for a in KEYS:
+        rng = case_rng(seed, PID, i)
+        yield gen_case(rng, stored=a, stored_err=a, requested=KEYS[(i + 1) % 5], n_extra=2, dtype='f8')
+        i += 1
     while i < N[tier]:
         rng = case_rng(seed, PID, i)
         yield gen_case(rng)
@@ -324,11 +358,68 @@ def run_case(case):
         why = direct_checks(case, d, path, got_f, got_e, nus, d_cm)
         if why:
             return CaseResult(False, violates=True, branches=sorted(branches), detail=why)
+        bad = sequential_reads(case, d, drv, branches)
+        if bad is not None:
+            bad.branches = sorted(branches)
+            return bad
         sample = dict(stored=a, stored_err=ae, requested=b, third=c, n_ap=nap, n_wav=len(nus), distance_cm=d_cm, order=case['order'],
                       stored0=float(flux[0, 0]), read0=float(got_f[0, 0]))
         return CaseResult(True, branches=sorted(branches), key=common.canon_hash(case), nontrivial=True, sample=sample)
     finally:
         shutil.rmtree(d, ignore_errors=True)
+
+
+def sequential_reads(case, d, drv, branches):
+    """further SED files of the case, all written first and then read one after the other in this process; every
+    one is compared with the expectation for its own grid.  Returns a failing CaseResult or None"""
+    from astropy import units as u
+    U = units()
+    subs = [stored_case(dict(case, wav=x['wav'], flux=x['flux'], err=x['err'], requested=x['requested'], extras=[]))
+            for x in case.get('extras', [])]
+    if not subs:
+        return None
+    paths = []
+    for k, sub in enumerate(subs):
+        paths.append(os.path.join(d, 'x%d.fits' % k))
+        with common.quiet():
+            write_sed(sub, paths[-1], U[sub['stored']])
+    a, ae = case['stored'], case.get('stored_err', case['stored'])
+    d_cm = float((case['distance'] * U[case['distance_unit']]).to(u.cm).value)
+    tol = TOL[case.get('dtype', 'f8')]
+    prev = case['wav']
+    for k, (sub, path) in enumerate(zip(subs, paths)):
+        b = sub['requested']
+        nu = (np.array(sub['wav'], dtype=float) * u.micron).to(u.Hz, equivalencies=u.spectral()).value
+        perm = np.argsort(nu)
+        if case['order'] == 'wav':
+            perm = perm[::-1]
+        nus = [float(v) for v in nu[perm]]
+        flux = np.array(sub['flux'], dtype=float)[:, perm]
+        err = np.array(sub['err'], dtype=float)[:, perm]
+        want_f = model_convert(drv, sub, a, b, d_cm, nus, flux.tolist())
+        want_e = model_convert(drv, sub, ae, b, d_cm, nus, err.tolist())
+        try:
+            with common.quiet():
+                s, got_f, got_e = read_values(path, U[b], case['order'])
+        except Exception as ex:
+            return CaseResult(False, violates=True, detail='reading SED file #%d of the case (stored %s, requested %s) raised %s: %s'
+                              % (k + 2, a, b, type(ex).__name__, ex))
+        same_look = (len(sub['wav']) == len(prev) and min(sub['wav']) == min(prev) and max(sub['wav']) == max(prev)
+                     and sorted(sub['wav']) != sorted(prev))
+        branches.add('sequential_read')
+        if same_look:
+            branches.add('sequential_same_ends_other_interior')
+        got_nu = np.asarray(s.nu.to(u.Hz).value, dtype=float)
+        if not (allclose(got_f, want_f, tol) and allclose(got_e, want_e, tol) and allclose(got_nu, nus, 1e-12)):
+            what, got, want = (('flux', got_f, want_f) if not allclose(got_f, want_f, tol) else
+                               ('error', got_e, want_e) if not allclose(got_e, want_e, tol) else ('frequency', got_nu, nus))
+            return CaseResult(False, violates=True,
+                              detail=('SED file #%d read after file #%d in the same process (%d wavelengths %r..%r, previous file %d '
+                                      'wavelengths %r..%r; stored %s / %s, requested %s): %s %r, expected for its own grid %r'
+                                      % (k + 2, k + 1, len(sub['wav']), sub['wav'][0], sub['wav'][-1], len(prev), prev[0], prev[-1],
+                                         a, ae, b, what, np.ravel(got)[:4].tolist(), np.ravel(want)[:4].tolist())))
+        prev = sub['wav']
+    return None
 
 
 def direct_checks(case, d, path, got_f, got_e, nus, d_cm):
